@@ -300,16 +300,32 @@ Section Cmds.
 
   (* ---------- list ---------- *)
   Lemma R_put_seq k ver vs : forall seq delta s1 s2, RR s1 s2 -> (TL, k, ver) <> (t0, k0, g) -> (TL, k, ver) <> (t0, k0, 0) ->
-    match put_seq s1 k ver seq delta vs, put_seq s2 k ver seq delta vs with
-    | Some a, Some b => RR a b
-    | None, None => True
-    | _, _ => False
-    end.
+    snd (put_seq s1 k ver seq delta vs) = snd (put_seq s2 k ver seq delta vs) /\
+    RR (fst (put_seq s1 k ver seq delta vs)) (fst (put_seq s2 k ver seq delta vs)).
   Proof.
     induction vs as [|v vs IH]; intros seq delta s1 s2 H G1 G2; simpl; auto.
     rewrite <- (R_el _ _ _ _ _ _ H TL k ver (SI seq) G1).
-    destruct (el_get s1 TL k ver (SI seq)); auto.
+    destruct (el_get s1 TL k ver (SI seq)); simpl; auto.
     apply IH; auto. apply R_el_put; auto.
+  Qed.
+  (* the repair of a list: the same decision on both sides, from the same live header and the same generation *)
+  Lemma scanfix_R s1 s2 k : RR s1 s2 ->
+    scanfix Compact s1 ts k = scanfix Compact s2 ts k /\
+    forall sa sb, RR sa sb -> RR (apply_fix sa k (scanfix Compact s1 ts k)) (apply_fix sb k (scanfix Compact s1 ts k)).
+  Proof using ts_nz ts_T.
+    intros H. unfold scanfix.
+    destruct (exist_cases _ _ TL k H) as [(h & a & b & E1 & E2 & G1 & G2 & G3) | [N1 N2]].
+    - rewrite E1, E2. cbn [not_exist_or_expired orb]. unfold list_seqs. rewrite <- (R_elof _ _ _ _ _ _ H TL k (h_ver h) G1).
+      split; auto. intros sa sb Hab.
+      destruct (list_meta_of (Some (a, b))) as [[hd tl] llen].
+      destruct (negb (contig _)); [exact Hab|].
+      destruct (flat_map _ _) as [|f r]; simpl.
+      + destruct ((hd =? 0) && (tl =? 0)); [exact Hab|]. destruct (llen =? 0); [exact Hab | now apply R_meta_del].
+      + match goal with |- context [if ?c then _ else _] => destruct c end; [exact Hab|].
+        apply R_meta_put; auto.
+    - destruct (noe_header_true _ _ _ N1) as (h1 & u1 & x1 & E1 & X1).
+      destruct (noe_header_true _ _ _ N2) as (h2 & u2 & x2 & E2 & X2).
+      rewrite E1, E2, X1, X2. simpl. auto.
   Qed.
   Lemma R_list_set_meta s1 s2 k h hd tl : RR s1 s2 ->
     ((TL, k) = (t0, k0) -> (~ hdead T h -> h_ver h <> g) /\ h_ver h <> 0) ->
@@ -333,11 +349,12 @@ Section Cmds.
     set (seq0 := (if hd then hd0 else tl0) + (if size >? 0 then delta else 0)).
     set (n := Z.of_nat (length (v :: vs))).
     destruct ((seq0 + (n - 1) * delta <=? list_min_seq) || (seq0 + (n - 1) * delta >=? list_max_seq)); [simpl; auto|].
-    pose proof (R_put_seq k (h_ver h) (v :: vs) seq0 delta s1 s2 H G1 G2) as X.
-    destruct (put_seq s1 k (h_ver h) seq0 delta (v :: vs)) as [a|], (put_seq s2 k (h_ver h) seq0 delta (v :: vs)) as [b|];
-      try contradiction; [|simpl; auto].
-    pose proof (R_list_set_meta a b k h (if hd then seq0 + (n - 1) * delta else hd0) (if hd then tl0 else seq0 + (n - 1) * delta) X G3) as Y.
-    destruct (list_set_meta a k h _ _) as [a'|], (list_set_meta b k h _ _) as [b'|]; try contradiction; simpl; auto.
+    destruct (R_put_seq k (h_ver h) (v :: vs) seq0 delta s1 s2 H G1 G2) as [Xb X].
+    destruct (put_seq s1 k (h_ver h) seq0 delta (v :: vs)) as [a ba], (put_seq s2 k (h_ver h) seq0 delta (v :: vs)) as [b bb].
+    cbn [fst snd] in Xb, X. subst bb. destruct ba.
+    - pose proof (R_list_set_meta a b k h (if hd then seq0 + (n - 1) * delta else hd0) (if hd then tl0 else seq0 + (n - 1) * delta) X G3) as Y.
+      destruct (list_set_meta a k h _ _) as [a'|], (list_set_meta b k h _ _) as [b'|]; try contradiction; simpl; auto.
+    - destruct (scanfix_R s1 s2 k H) as [E F]. rewrite <- E. cbn [fst snd]. split; auto.
   Qed.
 
   Lemma P_lpop k hd : P (CLPop k hd).
@@ -347,12 +364,13 @@ Section Cmds.
     - rewrite E1, E2. cbn [not_exist_or_expired orb]. destruct (list_meta_of (Some (a, b))) as [[hd0 tl0] size].
       destruct (size =? 0); [simpl; auto|].
       rewrite <- (R_el _ _ _ _ _ _ H TL k (h_ver h) (SI (if hd then hd0 else tl0)) G1).
-      destruct (el_get s1 TL k (h_ver h) (SI (if hd then hd0 else tl0))) as [e|]; [|simpl; auto].
-      assert (X : RR (el_del s1 TL k (h_ver h) (SI (if hd then hd0 else tl0))) (el_del s2 TL k (h_ver h) (SI (if hd then hd0 else tl0))))
-        by (apply R_el_del; auto).
-      pose proof (R_list_set_meta _ _ k h (if hd then hd0 + 1 else hd0) (if hd then tl0 else tl0 - 1) X G3) as Y.
-      destruct (list_set_meta (el_del s1 _ _ _ _) k h _ _) as [a'|], (list_set_meta (el_del s2 _ _ _ _) k h _ _) as [b'|];
-        try contradiction; simpl; auto.
+      destruct (el_get s1 TL k (h_ver h) (SI (if hd then hd0 else tl0))) as [e|].
+      + assert (X : RR (el_del s1 TL k (h_ver h) (SI (if hd then hd0 else tl0))) (el_del s2 TL k (h_ver h) (SI (if hd then hd0 else tl0))))
+          by (apply R_el_del; auto).
+        pose proof (R_list_set_meta _ _ k h (if hd then hd0 + 1 else hd0) (if hd then tl0 else tl0 - 1) X G3) as Y.
+        destruct (list_set_meta (el_del s1 _ _ _ _) k h _ _) as [a'|], (list_set_meta (el_del s2 _ _ _ _) k h _ _) as [b'|];
+          try contradiction; simpl; auto.
+      + destruct (scanfix_R s1 s2 k H) as [E F]. rewrite <- E. cbn [fst snd]. split; auto.
     - destruct (noe_header_true _ _ _ N1) as (h1 & u1 & x1 & E1 & X1).
       destruct (noe_header_true _ _ _ N2) as (h2 & u2 & x2 & E2 & X2).
       rewrite E1, E2, X1, X2. simpl; auto.
